@@ -1063,6 +1063,41 @@ def check_fcfs(chk) -> None:
     )
 
 
+def check_text_forms(chk) -> None:
+    """BPSEQ text <-> entries, sequence, multi-strand text (observe points from_string / __str__ / MultiStrandDotBracket.from_string)."""
+    repo = chk.repo
+    fs = repo.func(MOD, "BpSeq.from_string")
+    st = repo.func(MOD, "BpSeq.__str__")
+    sq = repo.func(MOD, "BpSeq.sequence")
+    for fi in (fs, st, sq):
+        chk.note_function(fi)
+    cons = [c for c in astq.calls(fs.node, "Entry")]
+    ok = len(cons) == 1 and norm(cons[0]) == "Entry(int(fields[0]), fields[1], int(fields[2]))" and "fields = line.split()" in norm(fs.node) and "for line in bpseq_str.splitlines():" in norm(fs.node)
+    rets = [r for r in fs.node.body if isinstance(r, ast.Return)]
+    chk.expect(ok and len(rets) == 1 and norm(rets[0].value) == "BpSeq(entries)", "bpseq-text", fs.where, "a BPSEQ line 'i c j' becomes Entry(int(i), c, int(j)), lines in order", "BpSeq.from_string does not read (index, letter, pair) from columns 1-3 of every line in order", K(fs, "parse"))
+    rets = [r for r in st.node.body if isinstance(r, ast.Return)]
+    ok = len(rets) == 1 and norm(rets[0].value).replace(" ", "") in ("'\\n'.join(('{}{}{}'.format(i,c,j)fori,c,jinself.entries))", "'\\n'.join(('{} {} {}'.format(i, c, j) for i, c, j in self.entries))".replace(" ", ""))
+    chk.expect(ok, "bpseq-text", st.where, "str(bpseq) writes 'index letter pair' per entry, newline separated, in entry order", "BpSeq.__str__ does not write `index letter pair` for every entry in order", K(st, "format"), found=[norm(r.value) for r in rets])
+    rets = [r for r in sq.node.body if isinstance(r, ast.Return)]
+    chk.expect(len(rets) == 1 and norm(rets[0].value) in ("''.join((entry.sequence for entry in self.entries))", "''.join([entry.sequence for entry in self.entries])"), "bpseq-sequence", sq.where, "sequence = the entries' letters in order", "BpSeq.sequence is not the join of entry.sequence over self.entries", K(sq, "sequence"))
+    pi = repo.func(MOD, "BpSeq.__post_init__")
+    chk.note_function(pi)
+    t = norm(pi.node)
+    chk.expect("for i, _, j in self.entries:" in t and "if j != 0:" in t and "self.pairs[i] = j" in t and "self.pairs[j] = i" in t, "bpseq-pairs", pi.where, "pairs maps both ends of every paired entry", "BpSeq.pairs is not filled symmetrically from the paired entries", K(pi, "pairs"))
+    ds = repo.func(MOD, "DotBracket.from_string")
+    chk.note_function(ds)
+    t = norm(ds.node)
+    chk.expect("if len(sequence) != len(structure):" in t and "raise ValueError" in t and "return DotBracket(sequence, structure)" in t, "dotbracket-length", ds.where, "a notation whose length differs from the sequence is refused", "DotBracket.from_string no longer refuses sequence/structure of different lengths", K(ds, "length"))
+    ms = repo.func(MOD, "MultiStrandDotBracket.from_string")
+    body = {norm(s.targets[0]): norm(s.value) for s in ast.walk(ms.node) if isinstance(s, ast.Assign) and isinstance(s.targets[0], ast.Name)}
+    ok = body.get("sequence") == "match.group(3)" and body.get("structure") == "match.group(4)" and body.get("last") == "first + len(sequence) - 1"
+    firsts = [norm(v) for s2, v in astq.assignments(ms.node, "first") if v is not None]
+    ok = ok and firsts == ["1", "last + 1"] and "strands.append(Strand(first, last, sequence, structure))" in norm(ms.node)
+    rets = [r for r in ms.node.body if isinstance(r, ast.Return)]
+    ok = ok and len(rets) == 1 and norm(rets[0].value).replace(" ", "") == "MultiStrandDotBracket(''.join((strand.sequenceforstrandinstrands)),''.join((strand.structureforstrandinstrands)),strands)"
+    chk.expect(ok, "multistrand-text", ms.where, "strands are numbered consecutively (first = previous last + 1) and concatenated in order", "MultiStrandDotBracket.from_string does not number strands consecutively and concatenate them in order", K(ms, "strands"))
+
+
 # ------------------------------------------------------------------------------------------------
 def run(chk) -> None:
     chk.explanation = (
@@ -1091,6 +1126,7 @@ def run(chk) -> None:
     check_fill(chk)
     check_decoder(chk)
     check_from_dotbracket(chk)
+    check_text_forms(chk)
     chk.floor("conflict-predicate", 3)
     chk.floor("fill-stores", 1)
     chk.floor("alphabet-agree", 1)
